@@ -13,7 +13,7 @@ pub struct CenCase {
     pub spec_limit: usize,
     /// the implementation sees every weight divided by this power of two (the model works on the integer numerators:
     /// betweenness is scale-invariant, closeness scales by the same factor)
-    pub wdiv: u32,
+    pub wdiv: u64,
 }
 impl CenCase {
     pub fn request(&self) -> String {
@@ -23,7 +23,7 @@ impl CenCase {
         let g = GraphCase::parse(t);
         let weighted = t.next() != 0;
         let spec_limit = t.next() as usize;
-        let wdiv = t.next() as u32;
+        let wdiv = t.next() as u64;
         CenCase { g, weighted, spec_limit, wdiv }
     }
 }
@@ -78,7 +78,7 @@ fn gen_diamond_chain(rng: &mut Rng) -> CenCase {
     }
     rng.shuffle(&mut edges);
     let specs = crate::store::Specs { directed, multi: false, self_loops: false, dedupe: 1, missing: 0, slfalse: 1 };
-    CenCase { g: GraphCase { specs, nodes, edges }, weighted, spec_limit: 8, wdiv: *rng.pick(&[1u32, 1, 2]) }
+    CenCase { g: GraphCase { specs, nodes, edges }, weighted, spec_limit: 8, wdiv: *rng.pick(&[1u64, 1, 2]) }
 }
 
 pub fn gen_cen(rng: &mut Rng, profile: &str, size: usize) -> CenCase {
@@ -90,7 +90,7 @@ pub fn gen_cen(rng: &mut Rng, profile: &str, size: usize) -> CenCase {
         weights: if weighted { WeightMode::Positive } else if rng.chance(50) { WeightMode::Unweighted } else { WeightMode::Mixed },
         allow_multi: true, allow_loops: true, directed: None, density_pct: if big { 7 } else { 25 },
     };
-    CenCase { g: gen_graph(rng, &o), weighted, spec_limit: 8, wdiv: *rng.pick(&[1u32, 1, 2, 2, 4]) }
+    CenCase { g: gen_graph(rng, &o), weighted, spec_limit: 8, wdiv: *rng.pick(&[1u64, 1, 2, 2, 4, 1 << 60]) }
 }
 
 pub fn candidates_cen(c: &CenCase) -> Vec<String> {
